@@ -305,14 +305,27 @@ fn install_prior(sig: c_int, kind: u8) {
 pub fn fill_info(info: &mut siginfo_t, sig: c_int, id: i32) {
     let bytes = unsafe { std::slice::from_raw_parts_mut(info as *mut siginfo_t as *mut u8, std::mem::size_of::<siginfo_t>()) };
     for (i, b) in bytes.iter_mut().enumerate() {
-        *b = if i < 24 { 0 } else { (id as u32).wrapping_mul(31).wrapping_add(i as u32 * 7) as u8 | 1 };
+        *b = if i < 28 { 0 } else { (id as u32).wrapping_mul(31).wrapping_add(i as u32 * 7) as u8 | 1 };
     }
     info.si_signo = sig;
     info.si_code = code_of(id);
     unsafe {
-        *((info as *mut siginfo_t as *mut i32).add(4)) = id;
-        *((info as *mut siginfo_t as *mut u32).add(5)) = info_uid(id);
+        // an anonymous sender (pid 0, uid 0: root outside the receiver's pid namespace) now and then
+        let anon = anonymous(id);
+        *((info as *mut siginfo_t as *mut i32).add(4)) = if anon { 0 } else { id };
+        *((info as *mut siginfo_t as *mut u32).add(5)) = if anon { 0 } else { info_uid(id) };
+        // the delivery id once more, where no decoder of sender information looks (si_value)
+        *((info as *mut siginfo_t as *mut i32).add(6)) = id;
     }
+}
+
+pub fn anonymous(id: i32) -> bool {
+    id.rem_euclid(13) == 6 && code_of(id) == libc::SI_USER
+}
+
+/// the delivery id a raw record carries (offset 24)
+pub fn info_id(rec: &siginfo_t) -> i32 {
+    unsafe { *((rec as *const siginfo_t as *const i32).add(6)) }
 }
 
 /// `si_code` of simulated delivery `id`: mostly SI_USER, some SI_QUEUE, and some small positive
@@ -334,7 +347,7 @@ pub fn info_uid(id: i32) -> u32 {
 
 /// `None` if `rec` is the bytewise image of what `fill_info` builds for (its own signal, its own id).
 pub fn info_mismatch(rec: &siginfo_t) -> Option<usize> {
-    let id = unsafe { *((rec as *const siginfo_t as *const i32).add(4)) };
+    let id = info_id(rec);
     let mut want: siginfo_t = unsafe { std::mem::zeroed() };
     fill_info(&mut want, rec.si_signo, id);
     let n = std::mem::size_of::<siginfo_t>();
